@@ -2,6 +2,7 @@ import Lean.Data.Json
 import TypifyModel.Model.Integer
 import TypifyModel.Generated.Tables
 import TypifyModel.Model.ConvertString
+import TypifyModel.Model.ConvertArray
 import TypifyModel.Generated.StringFormats
 import TypifyModel.Driver.Regex
 /-! Driver glue for slice `c10`: JSON schema line → `IntSchema` → `convertInteger`. -/
@@ -64,11 +65,32 @@ def handleString (j : Json) : String :=
      | .invalidPattern => "err InvalidSchema")
   | _, _ => "unsupported"
 
+/-- `{type: array, items?, additionalItems?, minItems?, maxItems?, uniqueItems?, contains?}` → `ConvertArray.convertArray` -/
+def handleArray (j : Json) : String :=
+  match getNatKey j "minItems", getNatKey j "maxItems" with
+  | .ok mn, .ok mx =>
+    let items : ConvertArray.Items :=
+      match j.getObjVal? "items" with
+      | .ok (.arr xs) => .list xs.size
+      | .ok _ => .single
+      | .error _ => .none
+    let v : ConvertArray.ArrV :=
+      { items := items, additional := (j.getObjVal? "additionalItems").toOption.isSome, maxItems := mx, minItems := mn,
+        unique := (j.getObjValAs? Bool "uniqueItems").toOption, contains := (j.getObjVal? "contains").toOption.isSome }
+    (match ConvertArray.convertArray v with
+     | .tuple n k r => "tuple n=" ++ toString n ++ " from_items=" ++ toString k ++ " rest=" ++ (if k < n then (if r then "additional" else "any") else "-")
+     | .array n a => "array n=" ++ toString n ++ " item=" ++ (if a then "any" else "typed")
+     | .vec a => "vec item=" ++ (if a then "any" else "typed")
+     | .set a => "set item=" ++ (if a then "any" else "typed")
+     | .invalid => "err InvalidSchema")
+  | _, _ => "unsupported"
+
 def handle (line : String) : String :=
   match Json.parse line with
   | .error _ => "unsupported"
   | .ok j =>
     if (j.getObjValAs? String "type").toOption == some "string" then handleString j else
+    if (j.getObjValAs? String "type").toOption == some "array" then handleArray j else
     match parseSchema j with
     | .error _ => "unsupported"
     | .ok s =>
